@@ -8,6 +8,7 @@ From Coq Require Import List ZArith NArith Bool String.
 From Lib Require Import ExprSyntax.
 From Gen Require Import Expr.
 From Model Require Import Expr.
+From Proofs Require Import ExprInd.
 Import ListNotations.
 
 (* ---------------------------------------------------------------- builders *)
@@ -112,15 +113,16 @@ Proof. destruct a; reflexivity. Qed.
 
 Theorem g_render_char d n : g_render d n = render d n.
 Proof.
-  induction n; cbn [g_render render].
+  induction n as [c|a|l IHl|k|op a b IHa IHb _|a b IHa IHb|f a b IHa IHb|p a IHa|neg a s IHa IHs|] using node_ind2;
+    cbn [g_render render].
   - reflexivity.
   - apply g_atom_toks_char.
-  - rewrite gen_seq_repr_char. f_equal. apply map_ext. intros; apply g_atom_toks_char.
+  - rewrite gen_seq_repr_char. f_equal. apply map_ext_Forall. exact IHl.
   - reflexivity.
-  - rewrite IHn1, IHn2. apply gen_sqlop_repr_char.
-  - rewrite IHn1, IHn2. apply gen_modulo_repr_char.
-  - rewrite IHn1, IHn2. apply gen_call_repr_char.
-  - rewrite IHn. apply gen_prefix_repr_char.
-  - rewrite IHn1, IHn2. apply gen_insub_repr_char.
+  - rewrite IHa, IHb. apply gen_sqlop_repr_char.
+  - rewrite IHa, IHb. apply gen_modulo_repr_char.
+  - rewrite IHa, IHb. apply gen_call_repr_char.
+  - rewrite IHa. apply gen_prefix_repr_char.
+  - rewrite IHa, IHs. apply gen_insub_repr_char.
   - reflexivity.
 Qed.
